@@ -19,6 +19,7 @@ import (
 	"sort"
 	"strconv"
 	"strings"
+	"sync"
 	"time"
 
 	"golang.org/x/tools/go/packages"
@@ -541,37 +542,75 @@ func classify(o *harnessOutcome, ld *loaded, known []KnownFinding, scratch strin
 	// until one reproduces (a step harness may reject a pre-state natively as unreachable,
 	// the next counterexample of the same assertion may start from a reachable one)
 	const maxCandidates = 12
-	tried := map[string]int{}
 	done := map[string]bool{}
 	firstSpur := map[string]vrec{}
 	var sigOrder []string
+	bySig := map[string][]interp.Violation{}
 	for _, v := range r.Violations {
 		sig := v.Harness + "|" + v.AssertID + "|" + tagString(v.Tags)
-		if done[sig] || tried[sig] >= maxCandidates {
+		if len(bySig[sig]) >= maxCandidates {
 			continue
 		}
-		if tried[sig] == 0 {
+		if len(bySig[sig]) == 0 {
 			sigOrder = append(sigOrder, sig)
 		}
-		tried[sig]++
-		rec := vrec{v: v}
-		rec.replay = writeReplay(prop, o, v)
-		if noReplay {
-			rec.repro = "not-replayed"
-		} else if o.h.Threads {
-			rec.repro = replayInEngine(ld, o.h, o.tc, v)
-		} else {
-			rec.repro = replayNative(ld, rec.replay, scratch)
-		}
-		if rec.repro == "not-reproduced" {
-			if _, ok := firstSpur[sig]; !ok {
-				firstSpur[sig] = rec
+		bySig[sig] = append(bySig[sig], v)
+	}
+	// signatures are replayed concurrently (a native replay of a hang costs its whole
+	// timeout), the candidates of one signature one after the other
+	type sigResult struct {
+		rec  vrec
+		ok   bool
+		spur *vrec
+	}
+	results := make([]sigResult, len(sigOrder))
+	par := 8
+	if o.h.Threads || noReplay {
+		par = 1
+	}
+	sem := make(chan struct{}, par)
+	var wg sync.WaitGroup
+	for k, sig := range sigOrder {
+		wg.Add(1)
+		sem <- struct{}{}
+		go func(k int, sig string) {
+			defer wg.Done()
+			defer func() { <-sem }()
+			for _, v := range bySig[sig] {
+				rec := vrec{v: v}
+				rec.replay = writeReplay(prop, o, v)
+				if noReplay {
+					rec.repro = "not-replayed"
+				} else if o.h.Threads {
+					rec.repro = replayInEngine(ld, o.h, o.tc, v)
+				} else {
+					rec.repro = replayNative(ld, rec.replay, scratch)
+				}
+				if rec.repro == "not-reproduced" {
+					if results[k].spur == nil {
+						rc := rec
+						results[k].spur = &rc
+					}
+					continue
+				}
+				results[k].rec, results[k].ok = rec, true
+				return
+			}
+		}(k, sig)
+	}
+	wg.Wait()
+	for k, sig := range sigOrder {
+		res := results[k]
+		if !res.ok {
+			if res.spur != nil {
+				firstSpur[sig] = *res.spur
 			}
 			continue
 		}
 		done[sig] = true
-		if k := matchKnown(known, prop, v); k != nil {
-			rec.known = k
+		rec := res.rec
+		if kf := matchKnown(known, prop, rec.v); kf != nil {
+			rec.known = kf
 			o.knownV = append(o.knownV, rec)
 		} else {
 			o.newV = append(o.newV, rec)
